@@ -47,7 +47,7 @@ def unit_fn(unit):
             rprog = NegRev(prog)
             nodes = gh_nodes(5)
             # ---- (i) single step: the reverse step is the exact inverse, for every grid increment
-            for h, t0 in itertools.product([2.0 ** -k for k in range(2, 7)], (0.0, 0.4)):
+            for h, t0, nominal in itertools.product([2.0 ** -k for k in range(2, 7)], (0.0, 0.4), (1.0, 2.5)):
                 for incs in itertools.product(nodes, repeat=min(mm, 2)):
                     dW = torch.zeros(B, mm, dtype=torch.float64)
                     for c, a in enumerate(incs):
@@ -56,8 +56,9 @@ def unit_fn(unit):
                         dW[:, 2:] = 0.3 * math.sqrt(h)
                     y0 = zoo.y0_for(prog, B)
                     stub = seams.StubBM(dW)
-                    fwd = zoo.make_solver(prog, stub, 'reversible_heun', h)
-                    bwd = zoo.make_solver(rprog, stub, 'reversible_heun', h)
+                    # the solver's nominal dt may be longer than the step actually taken (clipped / adaptive steps)
+                    fwd = zoo.make_solver(prog, stub, 'reversible_heun', nominal * h)
+                    bwd = zoo.make_solver(rprog, stub, 'reversible_heun', nominal * h)
                     ta, tb = torch.tensor(t0, dtype=torch.float64), torch.tensor(t0 + h, dtype=torch.float64)
                     # a generic (not freshly initialised) extra state: take one warm-up step first
                     e0 = fwd.init_extra_solver_state(ta - h, y0)
@@ -70,11 +71,42 @@ def unit_fn(unit):
                     sc = max(1.0, float(y1.abs().max()), float(z1.abs().max()))
                     if max(errs.values()) > 1e-12 * sc:
                         out.violation(dict(kind='single_step', noise_type=nt),
-                                      f"{pname} h={h} t0={t0} dW nodes {incs}: reverse step does not return the input "
-                                      f"(errors {errs})", dict(engine='D-c15', program=pname, h=h, t0=t0, nodes=incs))
+                                      f"{pname} h={h} (solver dt={nominal}h) t0={t0} dW nodes {incs}: reverse step does "
+                                      f"not return the input (errors {errs})",
+                                      dict(engine='D-c15', program=pname, h=h, t0=t0, nodes=incs, nominal=nominal))
                     else:
-                        out.keys.add(('step', nt, pname, h, t0, incs))
+                        out.keys.add(('step', nt, pname, h, t0, incs, nominal))
                     out.mx('max_single_step_error', max(errs.values()))
+            # ---- (ii-b) irregular output grid, dt larger than some gaps (clipped steps), extra state carried
+            for tsl, dtn in (([0., 0.3, 0.5, 0.55, 1.0], 0.5), ([0., 0.7], 1.0), ([0., 0.125, 0.4], 0.3)):  # every gap <= dt
+                y0 = zoo.y0_for(prog, B)
+                bm = zoo.make_bm(prog, B, 'none', unit['entropy'] + 3)
+                rbm = torchsde.ReverseBrownian(bm)
+                y, extra = y0, None
+                states = [y0]
+                for a, b_ in zip(tsl[:-1], tsl[1:]):
+                    ys_, extra = torchsde.sdeint(prog, y, torch.tensor([a, b_], dtype=torch.float64), bm=bm,
+                                                 method='reversible_heun', dt=dtn, extra=True, extra_solver_state=extra)
+                    y = ys_[-1]
+                    states.append(y)
+                f_, g_, z_ = extra
+                rextra = (-f_, -g_, z_)
+                yb = y
+                worst = 0.0
+                for k in range(len(tsl) - 1, 0, -1):
+                    yr, rextra = torchsde.sdeint(rprog, yb, torch.tensor([-tsl[k], -tsl[k - 1]], dtype=torch.float64),
+                                                 bm=rbm, method='reversible_heun', dt=dtn, extra=True,
+                                                 extra_solver_state=rextra)
+                    yb = yr[-1]
+                    worst = max(worst, float((yb - states[k - 1]).abs().max()))
+                out.count('executions')
+                if worst > 1e-10 * max(1.0, float(torch.stack(states).abs().max())):
+                    out.violation(dict(kind='irregular_grid', noise_type=nt),
+                                  f"{pname}: ts={tsl}, dt={dtn} (steps shorter than dt): forward states not "
+                                  f"reconstructed, error {worst}", dict(engine='D-c15', program=pname, ts=tsl, dt=dtn,
+                                                                        entropy=unit['entropy']))
+                else:
+                    out.keys.add(('irregular', nt, pname, tuple(tsl), dtn))
             # ---- (ii) multi step through sdeint(extra=True) and ReverseBrownian
             for h, n in itertools.product([2.0 ** -k for k in (3, 5, 6)], (1, 2, 5, 20)):
                 T = n * h
